@@ -501,14 +501,18 @@ func genAll(r *Rng, tier string, emit func(Sx)) {
 		emit(scripted(0))
 		emit(scripted(1))
 		emit(scripted(2))
+		emit(scripted3())
 		return
 	}
 	r = NewRng(r.U64())
-	n := 36
+	n := 30
 	if tier == "thorough" {
 		n = 400
 	}
 	for i := 0; i < n; i++ {
 		emit(genCase(r.Fork(), tier, i))
+		if i%3 == 2 { // every fourth case: per-dimension bottlenecks, replacements at every position, overflow
+			emit(genBottleneck(r.Fork(), tier))
+		}
 	}
 }
